@@ -15,6 +15,7 @@ import (
 	"os/exec"
 	"path/filepath"
 	"sort"
+	"strconv"
 	"strings"
 
 	"github.com/prometheus/prometheus/model/labels"
@@ -318,6 +319,13 @@ func run(c *core.Case) {
 	if r.IntN(3) != 0 && cfg.OOOWindow == 0 {
 		cfg.OOOWindow = cfg.BlockRange
 	}
+	if c.Idx%4 == 3 {
+		cfg.OOOCapMax = 4
+		if cfg.OOOWindow == 0 {
+			cfg.OOOWindow = cfg.BlockRange
+		}
+		cfg.NumSeries = 1 + r.IntN(2)
+	}
 	src := c.TempDir()
 	e, err := tsdbhist.NewExec(src, cfg)
 	core.Must(err, "open fresh db")
@@ -330,6 +338,15 @@ func run(c *core.Case) {
 		g.OOOTenths = 5
 	}
 	nops := 25 + r.IntN(50)
+	if c.Idx%4 == 3 {
+		// dense out-of-order mode: few series, no compaction, most samples behind the clock, the
+		// smallest out-of-order chunk capacity: several out-of-order chunks of one series are m-mapped
+		// into the same head-chunk file while their samples are still in the WBL
+		g.OOOTenths = 7
+		g.WCompact, g.WDelete, g.WRestart = 0, 1, 1
+		nops = 60 + r.IntN(60)
+		c.Count("dense_ooo_histories", 1)
+	}
 	var events []event
 	for i := 0; i < nops; i++ {
 		op := g.Next()
@@ -446,6 +463,9 @@ func run(c *core.Case) {
 		}
 	}
 	for di, d := range damages {
+		if only := os.Getenv("VERIF_C04_ONLY"); only != "" && only != fmt.Sprintf("%s@%d/%s", d.tg.path, d.off, d.kind) {
+			continue // debugging aid for replays: "chunks_head/000003@15/truncate"
+		}
 		work := fmt.Sprintf("%s/dmg-%d", c.TempDir(), di)
 		copyTree(image, work)
 		if !applyDamage(work, d) {
@@ -456,9 +476,6 @@ func run(c *core.Case) {
 		c.Seen("damage", d.tg.class+"/"+d.kind)
 		checkDamaged(c, cfg, e, events, blocksOnly, inWAL, baselineRemoved, work, d, crashImage)
 		os.RemoveAll(work)
-		if c.Violated() {
-			return
-		}
 	}
 	if c.Idx < 2 {
 		c.Sample(map[string]any{"config": cfg.String(), "history": tailStr(e.History()), "targets": fmt.Sprint(targets), "damages": len(damages), "crash_image": crashImage})
@@ -592,6 +609,10 @@ func checkDamaged(c *core.Case, cfg tsdbhist.Config, orig *tsdbhist.Exec, events
 			_ = t
 		}
 	}
+	if os.Getenv("VERIF_C04_ONLY") != "" {
+		c.Logf("disk before the damaged open:\n%s", tsdbhist.DiskSummary(work))
+	}
+	preRecs := headChunkRecs(work)
 	err := x.OpenDB()
 	if err != nil {
 		c.Count("opens_failed", 1)
@@ -604,11 +625,11 @@ func checkDamaged(c *core.Case, cfg tsdbhist.Config, orig *tsdbhist.Exec, events
 				continue // also removed when the undamaged image is opened: not caused by the damage
 			}
 			if after[f] == "" {
-				c.Violatef("failed-open-removed-file", "%s\ntsdb.Open failed (%v) and removed %s", what, err, f)
+				c.ViolateOncef("failed-open-removed-file", "%s\ntsdb.Open failed (%v) and removed %s", what, err, f)
 				return
 			}
 			if after[f] != h && f != d.tg.path && !baselineRemoved[f] {
-				c.Violatef("failed-open-altered-file", "%s\ntsdb.Open failed (%v) and altered undamaged file %s", what, err, f)
+				c.ViolateOncef("failed-open-altered-file", "%s\ntsdb.Open failed (%v) and altered undamaged file %s", what, err, f)
 				return
 			}
 		}
@@ -650,13 +671,21 @@ func checkDamaged(c *core.Case, cfg tsdbhist.Config, orig *tsdbhist.Exec, events
 				kind = "wal-sample-not-restored-behind-later-intact-head-chunk"
 			}
 		}
+		if k, t, ok := parseMissing(diff); ok && orig.IsMaybeOOO(k, t) && d.tg.class != "wal" && d.tg.class != "checkpoint" {
+			postRecs, markers := headChunkRecs(work), wblMarkers(work)
+			for _, ref := range seriesRefsOf(x, k) {
+				if danglingMarkerHonoured(preRecs, postRecs, markers[ref]) {
+					kind = "ooo-sample-lost-to-wbl-marker-of-absent-chunk"
+				}
+			}
+		}
 		if repaired && strings.Contains(diff, "missing sample") && (d.tg.class == "wal") {
 			// which sample? classify out-of-order samples lost by a WAL repair separately
 			if k, t, ok := parseMissing(diff); ok && orig.IsMaybeOOO(k, t) {
 				kind = "ooo-samples-not-replayed-after-wal-repair"
 			}
 		}
-		c.Violatef(kind, "%s\nopen succeeded (repair=%v): %s\nstate:\n%s", what, repaired, diff, x.Diagnose())
+		c.ViolateOncef(kind, "%s\nopen succeeded (repair=%v): %s\nstate:\n%s", what, repaired, diff, x.Diagnose())
 		return
 	}
 	// the repaired database accepts and keeps new writes
@@ -678,16 +707,30 @@ func checkDamaged(c *core.Case, cfg tsdbhist.Config, orig *tsdbhist.Exec, events
 	// what is in the DB now is the new baseline: pin the optional/missing decisions to what was observed
 	c.Logf("after first open:\n%s\n%s", x.Diagnose(), tsdbhist.DiskSummary(work))
 	if err := x.Apply(op); err != nil {
-		c.Violatef("append-after-repair-failed", "%s\n%v", what, err)
+		c.ViolateOncef("append-after-repair-failed", "%s\n%v", what, err)
 		return
 	}
 	c.Logf("before second restart:\n%s\n%s", x.Diagnose(), tsdbhist.DiskSummary(work))
+	var preRecs2 map[uint64]bool
+	x.OnRestartClosed = func() { preRecs2 = headChunkRecs(work) }
 	if err := x.Apply(tsdbhist.Op{Kind: "restart"}); err != nil {
-		c.Violatef("restart-after-repair-failed", "%s\n%v", what, err)
+		c.ViolateOncef("restart-after-repair-failed", "%s\n%v", what, err)
 		return
 	}
 	if diff := x.Check(nil); diff != "" {
 		kind := "after-repair-restart:" + classify(diff)
+		if k, t, ok := parseMissing(diff); ok && orig.IsMaybeOOO(k, t) {
+			had := false
+			for _, s := range firstOpen[k] {
+				had = had || s.T == t
+			}
+			postRecs, markers := headChunkRecs(work), wblMarkers(work)
+			for _, ref := range seriesRefsOf(x, k) {
+				if had && danglingMarkerHonoured(preRecs2, postRecs, markers[ref]) {
+					kind = "ooo-sample-lost-to-wbl-marker-of-absent-chunk"
+				}
+			}
+		}
 		if k, t, ok := parseMissing(diff); ok && newSample[k] == t && (d.tg.class == "wal" || d.tg.class == "checkpoint") {
 			// Known-finding predicate: the lost sample is one of the post-repair writes, the first
 			// open repaired the WAL, and this open returns samples of that series newer than the
@@ -719,7 +762,7 @@ func checkDamaged(c *core.Case, cfg tsdbhist.Config, orig *tsdbhist.Exec, events
 				diff += " [this (t,value) was appended to " + other + "]"
 			}
 		}
-		c.Violatef(kind, "%s\nsecond reopen after new appends and a clean close: %s\nstate:\n%s", what, diff, x.Diagnose())
+		c.ViolateOncef(kind, "%s\nsecond reopen after new appends and a clean close: %s\nstate:\n%s", what, diff, x.Diagnose())
 		return
 	}
 	c.Nontrivial(cfg.String(), orig.History(), d.tg.class, d.off, d.kind)
@@ -886,6 +929,86 @@ func walSamples(dir string) map[string]map[int64]bool {
 		}
 		for t := range ts {
 			out[k][t] = true
+		}
+	}
+	return out
+}
+
+// headChunkRecs returns the refs (file sequence<<32 | offset) of the chunk records in the
+// head-chunk files of dir, as far as each file parses.
+func headChunkRecs(dir string) map[uint64]bool {
+	out := map[uint64]bool{}
+	ents, _ := os.ReadDir(filepath.Join(dir, "chunks_head"))
+	for _, en := range ents {
+		seq, err := strconv.ParseUint(en.Name(), 10, 32)
+		if err != nil {
+			continue
+		}
+		b, err := os.ReadFile(filepath.Join(dir, "chunks_head", en.Name()))
+		if err != nil {
+			continue
+		}
+		bs := headChunkBounds(b)
+		for _, off := range bs[:len(bs)-1] {
+			out[seq<<32|uint64(off)] = true
+		}
+	}
+	return out
+}
+
+// wblMarkers returns, per series ref, the chunk refs named by the m-map markers in the WBL.
+func wblMarkers(dir string) map[uint64][]uint64 {
+	out := map[uint64][]uint64{}
+	sr, err := wlog.NewSegmentsReader(filepath.Join(dir, "wbl"))
+	if err != nil {
+		return out
+	}
+	defer sr.Close()
+	dec := record.NewDecoder(labels.NewSymbolTable(), tsdbx.NopLogger())
+	r := wlog.NewReader(sr)
+	for r.Next() {
+		rec := r.Record()
+		if dec.Type(rec) == record.MmapMarkers {
+			ms, err := dec.MmapMarkers(rec, nil)
+			if err != nil {
+				break
+			}
+			for _, m := range ms {
+				out[uint64(m.Ref)] = append(out[uint64(m.Ref)], uint64(m.MmapRef))
+			}
+		}
+	}
+	return out
+}
+
+// danglingMarkerHonoured is the witness predicate of the known finding
+// ooo-sample-lost-to-wbl-marker-of-absent-chunk: the WBL holds an m-map marker of the series
+// whose chunk record is not in the head-chunk files, while a chunk record that the open loaded
+// (in the files before the open and still there after it) has a larger ref.  WBL replay honours
+// a marker when its ref is not beyond the newest loaded chunk, and then drops the out-of-order
+// samples replayed so far, although the chunk that should hold them does not exist.
+func danglingMarkerHonoured(pre, post map[uint64]bool, markers []uint64) bool {
+	for _, m := range markers {
+		if pre[m] && post[m] {
+			continue
+		}
+		for r := range pre {
+			if post[r] && r > m {
+				return true
+			}
+		}
+	}
+	return false
+}
+
+func seriesRefsOf(x *tsdbhist.Exec, k string) []uint64 {
+	var out []uint64
+	if x.DB == nil {
+		return out
+	}
+	for ref, ls := range x.DB.Head().VerifSeriesRefs() {
+		if ls.String() == k {
+			out = append(out, ref)
 		}
 	}
 	return out
